@@ -287,6 +287,10 @@ func genCORSCase(t *rapid.T, preflightHeavy bool) CORSCase {
 				}
 				r.ACRH, r.HasACRH = strings.Join(hs, ","), true
 			}
+			if rapid.IntRange(0, 11).Draw(t, "lookalike") == 0 {
+				// method tokens are case-sensitive: this is no OPTIONS request, hence no preflight
+				r.Method = rapid.SampledFrom([]string{"options", "Options"}).Draw(t, "lookalikemethod")
+			}
 		} else {
 			r.Method = base.Method
 		}
